@@ -70,7 +70,7 @@ PropertyHolds == Deviations = {} => MountEqualsExpected /\ Doc3EqualsMount /\ Do
    or when it is exactly what the mechanism does under the recorded deviations. *)
 XMal == \E i \in PIdx : Malformed(pv[i])
 XSat == Satisfies(cfg.pa, pv) /\ xflag = "none" /\ ~XMal
-XVio == Violates(cfg.pa, pv) \/ XMal
+XVio == Violates(cfg.pa, pv) \/ XMal \/ xflag = "omit"
 TXReset == /\ Is("xreset") /\ pc \in {"pick", "done"}
            /\ cfg' = [pa |-> Ev.pa, ra |-> Ev.ra, tagged |-> Ev.tagged, devs |-> Deviations] /\ pv' = Ev.pv /\ rv' = Ev.rv /\ xflag' = Ev.flag
            /\ pc' = "encode" /\ wire' = <<>> /\ delivered' = <<>> /\ invoked' = FALSE /\ status' = 0 /\ errname' = "none"
